@@ -382,6 +382,8 @@ def c04_level2(ctx):
     ctx.extra["level2_server_leaves"] = st
     for j, code in enumerate((0, 1) if ctx.tier == "quick" else (0, 1, 3)):
         c05mod.server_leaves_run(ctx, bins, peer, j, code, 150, st, known_failing=True, prefix="l2/server-left")
+    if st.get("server_leaves_decided", 0) < 1:
+        ctx.inconclusive.append("l2/server-left: no scenario was decidable")
 
 
 def c05(ctx):
